@@ -6,4 +6,5 @@ var verifHarnesses = map[string]func(){
 	"VerifH_C05_L3_admission": VerifH_C05_L3_admission,
 	"VerifH_C07_independent":  VerifH_C07_independent,
 	"VerifH_C06_wakeup": VerifH_C06_wakeup,
+	"VerifH_C06_fifo3":  VerifH_C06_fifo3,
 }
